@@ -135,12 +135,16 @@ pub fn check_case(c: &Case, info: &mut CaseInfo) -> Result<(), Failure> {
                 let got = read_val(&r, PlainRef { id: *n, gen: 0 }).map_err(|e| fail(&format!("read-after-write-error:{}", errs::root_kind(&e)), format!("{}: resolve({}) through the open document failed: {:?}", when, n, e)))?;
                 let mut want = want.clone();
                 add_length(&mut want);
+                let mut got = got;
+                add_length(&mut got);
                 if canon(&got) != canon(&want) {
                     return Err(fail("read-after-write-differs:resolve", format!("{}: resolve({}) through the open document gives {:?}, last written {:?}", when, n, got, want)));
                 }
                 // typed read (goes through the object cache)
                 let typed = r.get(Ref::<Primitive>::from_id(*n)).map_err(|e| fail(&format!("read-after-write-error:get:{}", errs::root_kind(&e)), format!("{}: get({}) failed: {:?}", when, n, e)))?;
                 let got2 = from_primitive(&typed, Some(&r)).map_err(|m| fail("stream-data", m))?;
+                let mut got2 = got2;
+                add_length(&mut got2);
                 if canon(&got2) != canon(&want) {
                     return Err(fail("read-after-write-differs:get", format!("{}: get::<Primitive>({}) through the open document gives {:?}, last written {:?}", when, n, got2, want)));
                 }
@@ -263,7 +267,8 @@ pub fn check_case(c: &Case, info: &mut CaseInfo) -> Result<(), Failure> {
                     let mut want = want.clone();
                     add_length(&mut want);
                     match objs.get(n) {
-                        Some(Some(got)) if canon(got) == canon(&want) => {}
+                        // (/Length is framing: an indirect /Length that resolves to the data length is the same stream)
+                        Some(Some(got)) if canon(&{ let mut g = got.clone(); add_length(&mut g); g }) == canon(&want) => {}
                         other => return Err(fail("reload-differs:written-object", format!("after reload object {} is {:?}, last written {:?}", n, other, want))),
                     }
                 }
@@ -351,7 +356,8 @@ pub fn check_case(c: &Case, info: &mut CaseInfo) -> Result<(), Failure> {
                         let mut want = want.clone();
                         add_length(&mut want);
                         match objs.get(n) {
-                            Some(Some(got)) if canon(got) == canon(&want) => {}
+                            // (/Length is framing: an indirect /Length that resolves to the data length is the same stream)
+                        Some(Some(got)) if canon(&{ let mut g = got.clone(); add_length(&mut g); g }) == canon(&want) => {}
                             other => return Err(fail("reload-differs:written-object", format!("after reload object {} is {:?}, last written {:?} (save #{})", n, other, want, saves))),
                         }
                     }
@@ -470,6 +476,85 @@ pub fn run(ctx: &Ctx) {
         let gens: Vec<(u64, u64)> = r.expect.iter().filter(|(_, g, e)| *g > 0 && matches!(e, crate::props::c02::Expect::Value(_))).map(|(n, g, _)| (*n, *g)).collect();
         bases.push((format!("history-{}[update/{}-sections{}]", k, h.secs.len(), if gens.is_empty() { "" } else { ",generation>0" }), r.file.0.clone(), vec![], gens));
     }
+    // typed updates: a page is read, written back through update() as a typed value (its content stream still lives
+    // in the file), saved, and read again; then replaced once more and saved again
+    {
+        let jobs: Vec<(usize, u32)> = bases.iter().enumerate().flat_map(|(bi, b)| {
+            let n = pdf::file::FileOptions::uncached().load(b.1.clone()).map(|f| f.num_pages()).unwrap_or(0).min(3);
+            (0..n).map(move |p| (bi, p))
+        }).collect();
+        ctx.run_enum("typed-page-rewrite", jobs.len() as u64, |k| jobs[k as usize], |(bi, pg), info| {
+            let (name, data, _pw, _) = &bases[*bi];
+            let art = || json!({"base_name": name, "page": pg, "base": Bytes(data.clone())});
+            let fail = |key: &str, msg: String| Failure::new(format!("c09:typed-page-rewrite:{}", key), format!("{} page {}: {}", name, pg, msg), art());
+            info.label("typed-page-rewrite");
+            info.distinct((name, pg));
+            let path = tmp_path();
+            let r = panics::catch(|| -> Result<Option<String>, Failure> {
+                use crate::props::c08::{describe, descs_equal};
+                use pdf::object::{PagesNode, Updater};
+                let mut file = pdf::file::FileOptions::uncached().load(data.clone()).map_err(|e| fail("harness-base", format!("{:?}", e)))?;
+                let page = match file.get_page(*pg) {
+                    Ok(p) => p,
+                    Err(_) => return Ok(Some("page does not load".into())),
+                };
+                let ops_before = match page.contents.as_ref().map(|c| c.operations(&file.resolver())).transpose() {
+                    Ok(o) => o.unwrap_or_default(),
+                    Err(_) => return Ok(Some("operations do not parse".into())),
+                };
+                let pref = page.get_ref().get_inner();
+                let mut copy = (*page).clone();
+                copy.rotate = (copy.rotate + 90) % 360;
+                if file.update(pref, PagesNode::Leaf(copy.clone())).is_err() {
+                    // (resources the library cannot write, e.g. most colour spaces)
+                    return Ok(Some("update refused".into()));
+                }
+                for round in 0..2 {
+                    if let Err(e) = file.save_to(&path) {
+                        return Err(fail("save-error", format!("save #{} after a typed update of a page failed: {:?}", round + 1, e)));
+                    }
+                    let bytes = std::fs::read(&path).map_err(|e| fail("harness-read", e.to_string()))?;
+                    if !bytes.starts_with(data) {
+                        return Err(fail("prefix", "the previous revision is not a prefix of the saved file".into()));
+                    }
+                    let re = pdf::file::FileOptions::uncached().load(bytes).map_err(|e| fail("reload-error", format!("{:?}", e)))?;
+                    let p2 = re.get_page(*pg).map_err(|e| fail("reload-page-error", format!("{:?}", e)))?;
+                    let want_rotate = if round == 0 { copy.rotate } else { (copy.rotate + 90) % 360 };
+                    if p2.rotate != want_rotate {
+                        return Err(fail("rotate", format!("round {}: rotate {} after reload, written {}", round, p2.rotate, want_rotate)));
+                    }
+                    let ops_after = p2.contents.as_ref().map(|c| c.operations(&re.resolver())).transpose().map_err(|e| fail("reload-operations-error", format!("{:?}", e)))?.unwrap_or_default();
+                    let (a, b): (Vec<_>, Vec<_>) = (ops_before.iter().map(describe).collect(), ops_after.iter().map(describe).collect());
+                    if a.len() != b.len() {
+                        return Err(fail("operations", format!("{} operations before, {} after save and reload", a.len(), b.len())));
+                    }
+                    if let Some(d) = descs_equal(&a, &b) {
+                        return Err(fail("operations", d));
+                    }
+                    if round == 0 {
+                        // replace the page once more (the second save must work as well)
+                        let mut again = copy.clone();
+                        again.rotate = (copy.rotate + 90) % 360;
+                        file.update(pref, PagesNode::Leaf(again)).map_err(|e| fail("second-update-error", format!("{:?}", e)))?;
+                    }
+                }
+                Ok(None)
+            });
+            let _ = std::fs::remove_file(&path);
+            match r {
+                Err(p) => Err(panic_failure(&p, art())),
+                Ok(Err(f)) => Err(f),
+                Ok(Ok(Some(why))) => {
+                    info.label(format!("typed-page-rewrite/skipped:{}", why));
+                    Ok(())
+                }
+                Ok(Ok(None)) => {
+                    info.nontrivial(true);
+                    Ok(())
+                }
+            }
+        });
+    }
     let nb = bases.len();
     let cases = ctx.tier.pick(2_000, 150_000);
     ctx.run_cases(
@@ -502,4 +587,4 @@ pub fn run(ctx: &Ctx) {
     );
 }
 
-pub const RULE: &str = "cases = (base file, cached/uncached, history of 1-25 operations over {create v, update r v (r: base direct object, base compressed object, object created earlier, updated repeatedly with different dictionaries), promise, fulfil, read through the open document, save, failing save (unfulfilled promise) then repair and retry}); bases: unencrypted corpus files incl. offset.pdf (junk before the header) and xelatex.pdf (xref stream + object streams) generated documents covering every storage form, and files with a history of their own (several sections, freed numbers re-used with a bumped generation; references carry that generation); oracle = model (reference -> last value written): reads through the open document (resolve and typed get) reflect each write at once; after every successful save the previous revision is a byte prefix of the output and a fresh load (cached and uncached) resolves every written reference - the very reference the caller passed or was handed - to the last value and every untouched object to its previous value, page count unchanged; non-trivial = a save after a write; distinct by (base, history)";
+pub const RULE: &str = "cases = (base file, cached/uncached, history of 1-25 operations over {create v, update r v (r: base direct object, base compressed object, object created earlier, updated repeatedly with different dictionaries), promise, fulfil, read through the open document, save, failing save (unfulfilled promise) then repair and retry}); bases: unencrypted corpus files incl. offset.pdf (junk before the header) and xelatex.pdf (xref stream + object streams) generated documents covering every storage form, and files with a history of their own (several sections, freed numbers re-used with a bumped generation; references carry that generation); plus, for every base and its first three pages, a typed rewrite (the page read, written back through update() with another rotation while its content stream still lives in the file, saved, reloaded, rewritten and saved again: rotation and operations as written); oracle = model (reference -> last value written): reads through the open document (resolve and typed get) reflect each write at once; after every successful save the previous revision is a byte prefix of the output and a fresh load (cached and uncached) resolves every written reference - the very reference the caller passed or was handed - to the last value and every untouched object to its previous value, page count unchanged; non-trivial = a save after a write; distinct by (base, history)";
